@@ -211,11 +211,15 @@ def gen_comm(r, sid, klass=None, with_limits=False, with_time=False, big=False):
     intr = r.choice([1, 2, 3, 6]) if r.chance(1, 5) else 0
     if intr:
         reads = reads + [["b", "-", reads[-1][2] if reads[-1][2] != "-" and with_time else "-"], ["b", "-", "-"]]
+    # ... or the k-th read(2) that has to block (a single captured stream is read without poll): an error, not end-of-file
+    intr_read = r.choice([1, 2]) if (r.chance(1, 4) and (pi, po, pe).count(True) == 1 and not pi) else 0
+    if intr_read and not intr:
+        reads = reads + [["b", "-", "-"], ["b", "-", "-"]]
     work = inlen + nout[0] + nerr[0]
     maxcalls = 4 * (work // 1 if work < 3000 else work // 64) + 40 * len(ops) + 4000 + 400 * len(reads)
     text = "\n".join([
         "scn %s" % sid,
-        "comm %d %d %d %d %d %d %d" % (pi, po, pe, caps[0], caps[1], caps[2], intr),
+        "comm %d %d %d %d %d %d %d %d" % (pi, po, pe, caps[0], caps[1], caps[2], intr, intr_read),
         "input %s" % inp,
         "prog %s" % (";".join(ops) if ops else "-"),
         "choices %s" % (",".join(str(c) for c in choices) if choices else "-"),
@@ -592,6 +596,8 @@ def monitors_popen(s, drv, rep):
             else:
                 if reap is None:
                     fails["C09"].append("op#%d %s reported Undetermined although nobody else reaped the child" % (i + 1, name))
+                    if exit_time is None or t1 < exit_time:
+                        bogus_report = True
             reported = val
             finished_at_op = i
         if is_query and val.startswith("err:"):
